@@ -22,3 +22,18 @@ Definition convex_fo (f f' : R -> R) : Prop :=
 (* x minimises f on [lo, hi] *)
 Definition argmin_on (f : R -> R) (lo hi x : R) : Prop :=
   lo <= x <= hi /\ forall y, lo <= y <= hi -> f x <= f y.
+
+(* the same, required only on a domain D (a real -log Lambda is undefined for ns >= N: the hypotheses of the
+   theorems need to hold only where the minimiser evaluates the objective) *)
+Definition convex_on (D : R -> Prop) (f f' : R -> R) : Prop :=
+  forall x y, D x -> D y -> f x + f' x * (y - x) <= f y.
+
+(* the points a bounded Newton-Raphson run started at init can evaluate *)
+Definition nr_domain (lo hi init : R) (x : R) : Prop :=
+  x = init \/ x = lo \/ x = hi \/ lo <= x <= hi.
+
+Lemma nr_domain_clip lo hi init y : nr_domain lo hi init (clipR lo hi y).
+Proof.
+  unfold nr_domain, clipR. destruct (Rlt_dec y lo); [tauto|]. destruct (Rlt_dec hi y); [tauto|].
+  right. right. right. lra.
+Qed.
